@@ -25,7 +25,7 @@ import wntr.morph.link as ML
 import wntr.morph.skel as MS
 from wntr.network.base import LinkStatus
 from wntr.network import elements as EL
-from wntr.network.controls import Control, ControlAction, SimTimeCondition, Comparison
+from wntr.network.controls import Control, ControlAction, SimTimeCondition, Comparison, Rule, ValueCondition
 
 from .. import symx
 from ..symx import Sym, real, rv, zabs
@@ -322,6 +322,9 @@ def build_skel(V, cfg):
     if cfg.get('control'):
         act = ControlAction(wn.get_link('P8'), 'status', LinkStatus.Closed)
         wn.add_control('ctl', Control(SimTimeCondition(wn, Comparison.eq, 3600), act))
+        # rules that only READ removal candidates: the dead-end junction J3 and the series pipe P5 (their actions go to the main P1)
+        wn.add_control('r_j3', Rule(ValueCondition(wn.get_node('J3'), 'pressure', Comparison.lt, 10.0), [ControlAction(wn.get_link('P1'), 'status', LinkStatus.Open)], name='r_j3'))
+        wn.add_control('r_p5', Rule(ValueCondition(wn.get_link('P5'), 'flow', Comparison.gt, 0.5), [ControlAction(wn.get_link('P1'), 'status', LinkStatus.Open)], name='r_p5'))
     info = {'patterns': {}, 'bases': {}}
     for pn, n in (('A', 2), ('B', 3)):
         ms = [V.real('m%s%d' % (pn, k), -5, 5) for k in range(n)]
@@ -369,8 +372,9 @@ def structure_failures(wn, wn2, smap, cfg):
     for n in wn.pump_name_list + wn.valve_name_list:
         if n not in wn2.link_name_list:
             out.append('pump/valve %s removed' % n)
+    from .c14 import control_objects        # walks conditions and actions itself (not through requires())
     for cn, ctl in wn2.controls():
-        for req in ctl.requires():
+        for req in control_objects(ctl):
             nm = getattr(req, 'name', None)
             if isinstance(req, EL.Pipe) and (nm not in wn2.link_name_list or wn2.get_link(nm) is not req):
                 out.append('control %s refers to pipe %s which is no longer in the model' % (cn, nm))
